@@ -68,12 +68,50 @@ def first_repo_frame(err):
     return None
 
 
+def frame_function(err, loc):
+    """Name of the function of the backtrace frame located at `loc` (repo-relative file:line)."""
+    lines = err.splitlines()
+    for i, ln in enumerate(lines):
+        m = re.match(r"^\s+at (?:/repo/|\./)([^\s:]+):(\d+)(?::\d+)?\s*$", ln)
+        if m and f"{m.group(1)}:{m.group(2)}" == loc and i > 0:
+            f = re.sub(r"^\s*\d+:\s*", "", lines[i - 1]).strip()
+            f = re.sub(r"::\{\{closure\}\}", "", f)
+            f = re.sub(r"::h[0-9a-f]{16}$", "", f)
+            return re.sub(r"\s+", "", f) or None
+    return None
+
+
+_ALIASES = None
+
+
+def aliases():
+    """KNOWN_FINDINGS.txt lines of C22 may carry `fn=<function>`: the same panic site is then recognised
+    after unrelated edits have shifted its line number (the listed key keeps the line it was found at)."""
+    global _ALIASES
+    if _ALIASES is None:
+        _ALIASES = {}
+        p = Path(__file__).resolve().parents[3] / "KNOWN_FINDINGS.txt"
+        for line in p.read_text().splitlines():
+            m = re.match(r"finding: property=C22 key=(\S+) .*\bfn=(\S+) msg=(\S+)", line)
+            if m:
+                key = m.group(1)
+                _ALIASES[(re.sub(r":\d+$", "", key), m.group(2), m.group(3))] = key
+    return _ALIASES
+
+
+def msg_kind(err):
+    """The panic message with numbers abstracted (distinguishes several sites within one function)."""
+    m = re.search(r"panicked at [^\n]*\n([^\n]*)", err)
+    t = re.sub(r"\d+", "N", m.group(1) if m else "")
+    return re.sub(r"[^A-Za-z]+", "_", t)[:30].strip("_") or "none"
+
+
 def locus_str(c):
     return c["carrier"] + ":" + ".".join(str(x) for x in c["locus"]) + (":" + c["label"] if c.get("label") else "")
 
 
 def classify(r):
-    k = r.klass()
+    k = "signal11" if "unrecognized option" in r.err else r.klass()
     if k == "diagnostic" and not (r.err.strip() or r.out.strip()):
         return "silent-failure"
     return k
@@ -179,8 +217,12 @@ def key_of(c, k, r):
         if not site.startswith(REPO_DIRS):
             # a panic inside a dependency / the standard library: name the wild frame that got there
             fr = first_repo_frame(r.err)
-            return f"panic@{site}<-{fr}" if fr else f"panic@{site}"
-        return f"panic@{site}"
+            key = f"panic@{site}<-{fr}" if fr else f"panic@{site}"
+            fn = frame_function(r.err, fr) if fr else None
+        else:
+            key = f"panic@{site}"
+            fn = frame_function(r.err, site)
+        return aliases().get((re.sub(r":\d+$", "", key), fn, msg_kind(r.err)), key) if fn else key
     if k.startswith("signal"):
         return f"{k}@{where_str(c)}"
     if k == "hang":
